@@ -5,3 +5,7 @@ import Gleece.Properties.C14
 #print axioms Gleece.Crash.both_emitters_know_the_rules
 #print axioms Gleece.Crash.unwrapArray_idem
 #print axioms Gleece.Paths.replaceDD_length_lt
+#print axioms Gleece.Cli.wrap_contract
+#print axioms Gleece.Cli.wrap_without_propagation_breaks
+#print axioms Gleece.Cli.every_generating_command_propagates
+#print axioms Gleece.Cli.generating_commands_present
